@@ -22,36 +22,41 @@ func init() {
 			"A case is non-trivial when the laid-out document has at least two pages and at least one page end (forced or unforced) was decided by the break monitor; distinct = distinct input.",
 		N: func(tier string) int {
 			if tier == "thorough" {
-				return nTables + 120000
+				return nTables + 200000
 			}
-			return nTables + 6000
+			return nTables + 10000
 		},
 		Gen:   genCase,
 		Check: check,
 		Floor: func(tier string) int {
 			if tier == "thorough" {
-				return 60000
+				return 100000
 			}
-			return 4000
+			return 6000
 		},
 		CounterFloors: func(tier string) map[string]int64 {
 			m := int64(1)
 			if tier == "thorough" {
 				m = 15
 			}
+			// floors are about a third of what the unchanged tree shows at seed 1
 			return map[string]int64{
-				"pages":                    15000 * m,
-				"ends_unforced":            6000 * m,
-				"ends_forced":              1500 * m,
-				"ends_exact_fit":           400 * m,
-				"ends_moved_by_rules":      1000 * m,
-				"ends_rules_dropped":       100 * m,
-				"blank_pages":              300 * m,
-				"geometry_fields_compared": 100000 * m,
-				"margin_box_texts":         3000 * m,
-				"named_pages":              300 * m,
-				"hook_pages":               15000 * m,
-				"repagination_docs":        100 * m,
+				"pages":                     15000 * m,
+				"ends_unforced":             6000 * m,
+				"ends_forced":               3000 * m,
+				"ends_forced_side":          1000 * m,
+				"ends_exact_fit":            800 * m,
+				"ends_moved_by_rules":       1500 * m,
+				"ends_rules_dropped":        500 * m,
+				"ends_first_unit_overflows": 300 * m,
+				"blank_pages":               500 * m,
+				"geometry_fields_compared":  100000 * m,
+				"margin_box_texts":          8000 * m,
+				"named_pages":               2500 * m,
+				"hook_pages":                15000 * m,
+				"repagination_docs":         300 * m,
+				"kind_ow-table":             nOW,
+				"kind_pair-table":           nPair - 12,
 			}
 		},
 		Assumptions: []string{
@@ -349,6 +354,9 @@ func check(raw json.RawMessage) fw.Result {
 		}
 		if v.exactFit && v.kind != "end" {
 			res.Count("ends_exact_fit", 1)
+		}
+		if v.firstOverflows {
+			res.Count("ends_first_unit_overflows", 1)
 		}
 		// blank pages that follow
 		nb := 0
